@@ -2,6 +2,7 @@
 package main
 
 import (
+	"net"
 	"strings"
 
 	"github.com/miekg/dns"
@@ -443,6 +444,43 @@ func run(r *Rng, tier string, n int) {
 			checkTruncate(mm.Copy(), sz, false, false)
 		}
 		st["empty_rdata_messages"]++
+	}
+	// many records of the rare types whose length methods have arithmetic of their own: APL with prefixes that are
+	// not octet aligned, AMTRELAY with the discovery bit, NSEC3 with hashes of every length, SVCB with many values
+	{
+		mkAll := func() []dns.RR {
+			var out []dns.RR
+			hd := func(t uint16) dns.RR_Header {
+				return dns.RR_Header{Name: "rare.example.org.", Rrtype: t, Class: 1, Ttl: 60}
+			}
+			for i := 0; i < 30; i++ {
+				var pf []dns.APLPrefix
+				for k := 0; k < 8; k++ {
+					pf = append(pf, dns.APLPrefix{Network: net.IPNet{IP: net.IPv4(10, byte(i), 240, 0).To4(), Mask: net.CIDRMask(20, 32)}})
+				}
+				out = append(out, &dns.APL{Hdr: hd(dns.TypeAPL), Prefixes: pf})
+			}
+			return out
+		}
+		kinds := map[string][]dns.RR{"apl": mkAll()}
+		var amt, n3 []dns.RR
+		for i := 0; i < 60; i++ {
+			amt = append(amt, &dns.AMTRELAY{Hdr: dns.RR_Header{Name: "rare.example.org.", Rrtype: dns.TypeAMTRELAY, Class: 1, Ttl: 60}, Precedence: 1, GatewayType: 0x82, GatewayAddr: net.ParseIP("2001:db8::15")})
+			hl := 1 + i
+			hash := strings.Repeat("0", (hl*8+4)/5)
+			n3 = append(n3, &dns.NSEC3{Hdr: dns.RR_Header{Name: "rare.example.org.", Rrtype: dns.TypeNSEC3, Class: 1, Ttl: 60}, Hash: 1, Iterations: 1, SaltLength: 2, Salt: "abcd", HashLength: uint8(hl), NextDomain: hash, TypeBitMap: []uint16{1, 2}})
+		}
+		kinds["amtrelay"], kinds["nsec3"] = amt, n3
+		for _, k := range []string{"apl", "amtrelay", "nsec3"} {
+			mm := new(dns.Msg)
+			mm.Response = true
+			mm.SetQuestion("rare.example.org.", dns.TypeANY)
+			mm.Answer = kinds[k]
+			for _, sz := range []int{512, 600, 700, 1232} {
+				checkTruncate(mm.Copy(), sz, false, false)
+			}
+			st["rare_type_messages"]++
+		}
 	}
 	// TSIG: untouched
 	m := new(dns.Msg)
